@@ -952,7 +952,22 @@ func (s *S3Proxy) GetObjectAttributes(ctx context.Context, input *s3.GetObjectAt
 		input.VersionId = nil
 	}
 
+	if len(input.ObjectAttributes) == 0 {
+		// the controller selects what it returns from the whole set; the
+		// request to the endpoint has to name the attributes it asks for
+		input.ObjectAttributes = []types.ObjectAttributes{
+			types.ObjectAttributesEtag,
+			types.ObjectAttributesChecksum,
+			types.ObjectAttributesObjectParts,
+			types.ObjectAttributesStorageClass,
+			types.ObjectAttributesObjectSize,
+		}
+	}
+
 	out, err := s.client.GetObjectAttributes(ctx, input)
+	if err != nil {
+		return s3response.GetObjectAttributesResponse{}, handleError(err)
+	}
 
 	parts := s3response.ObjectParts{}
 	objParts := out.ObjectParts
